@@ -195,7 +195,7 @@ func runHTTP(e *c08Env) *drv.Failure {
 		sv.states = append(sv.states, e.stateOf(fl.u))
 		pend, _ := codec.VerifPending(sv.cdc.Codec)
 		if got := int(codec.VerifSeqNum(sv.cdc.Codec)) + pend; got != len(sv.states) {
-			return drv.Failf("harness", "seq-model", "%s: server has %d processed+pending updates, model %d", what, got, len(sv.states))
+			return drv.Failf("update-lost", "http-server", "%s: the server side holds %d processed+pending updates after %d accepted key-set requests", what, got, len(sv.states))
 		}
 		if blocked {
 			return drv.Failf("decode-blocks", "update-backlog-full:"+c.Flow,
